@@ -206,7 +206,11 @@ def run_case(case):
     if Zr is not None and Zr.shape == Z.shape and float((Zr - Z).abs().max()) <= 1e-12 * scale:
         r.label('exact_oracle_used')
         Gr, = torch.autograd.grad(_loss(Zr, g, False), x2)
-        tol = 1e-9 * max(np.abs(gz).max() * gain, 1e-300)
+        # conditioning: the phase re/r of a coefficient that is zero up to rounding (amplitude * eps) is only defined
+        # to (amplitude * eps) / bias - two correct evaluations differ by that much (thorough run, seed 4: a 2.5e6
+        # grating with bias 1e-6)
+        cond = 4 * core.EPS64 * gain * core.maxabs(x) / bias
+        tol = (1e-9 + cond) * max(np.abs(gz).max() * gain, 1e-300)
         okc, err = core.close(grad, Gr.numpy(), tol)
         r.metric('exact_grad_err', err / max(np.abs(gz).max() * gain, 1e-300))
         if not okc:
